@@ -13,7 +13,7 @@ import ast
 from typing import Dict, List, Optional, Set, Tuple
 
 from ..model import Program, AnalysisError, FuncInfo, ClassInfo, walk_local, dotted
-from ..report import RuleResult
+from ..report import RuleResult, guard
 from ..astutil import src, site, calls_in, call_name, is_self_attr, is_super_call, names_in
 from ..callgraph import self_closure
 from ..dtable import explore, Sym
@@ -487,4 +487,4 @@ def _opt_truth(prog):
 
 
 def run(prog: Program, tier: str) -> List[RuleResult]:
-    return [sg_coherence(prog), idkey(prog), rel_gate(prog), sg_purge_directions(prog), rel_live(prog), _sg_sweep(prog), _opt_truth(prog), rel_edges(prog), id_state(prog)]
+    return [guard(lambda: sg_coherence(prog)), guard(lambda: idkey(prog)), guard(lambda: rel_gate(prog)), guard(lambda: sg_purge_directions(prog)), guard(lambda: rel_live(prog)), guard(lambda: _sg_sweep(prog)), guard(lambda: _opt_truth(prog)), guard(lambda: rel_edges(prog)), guard(lambda: id_state(prog))]
